@@ -131,7 +131,10 @@ def run_real(case):
                     g = m["GN"] / m["GD"]
                     m2 = dict(m)
                     m2["R"] = [[[-abs(x) - 1 for x in row] for row in sa] for sa in m["R"]]
-                    b2 = build.build_mdp(m2, rng=random.Random(1), discount=(0.25 if g >= 0.5 else 0.9),
+                    # the partner's discount is a float, or the INTEGER 0 (the batch must not take its
+                    # dtype from the first MDP; discount 0 can never make the partner's evaluation singular)
+                    pdisc = 0 if rng.random() < 0.4 else (0.25 if g >= 0.5 else 0.9)
+                    b2 = build.build_mdp(m2, rng=random.Random(1), discount=pdisc,
                                          **dict(rep, explicit_list=True))
                     if tuple(b2.mdp.transition_matrix.shape) == tuple(b.mdp.transition_matrix.shape):
                         r = PolicyIteration(max_iterations=100000, undefined_value=undef).batch_plan_on([b2.mdp, b.mdp])[1]
